@@ -104,6 +104,63 @@ pub fn chain_record(i: u64, len: u64) -> Dict {
     d
 }
 
+/// The record the deep-nesting filters are evaluated on.
+pub fn deep_subject() -> Dict {
+    let mut d = Dict::new();
+    d.insert("id".into(), Value::make_ref("deep"));
+    d.insert("a".into(), Value::Marker);
+    d.insert("b".into(), Value::Marker);
+    d.insert("x".into(), Value::make_number(1.0));
+    d.insert("dis".into(), Value::make_str("d"));
+    d.insert("siteRef".into(), Value::make_ref("r0"));
+    d
+}
+
+const DEEP_TRUE: &[&str] = &["a", "b", "x", "x == 1", "x < 5", "x != 2", "not nope", "dis == \"d\"", "id == @deep", "not c"];
+const DEEP_FALSE: &[&str] = &["nope", "c", "not a", "x == 2", "x > 5", "not x", "dis == \"e\"", "a == 1"];
+const DEEP_NONLOCAL: &[&str] = &["siteRef->a", "siteRef->nope", "not siteRef->a", "siteRef->x == 1", "containedBy? @r0"];
+
+/// A filter nested `depth` levels deep in which nothing short-circuits on [deep_subject]: at an
+/// `and` level the siblings of the parenthesised operand hold, at an `or` level they do not, so an
+/// evaluation visits every term - once each, if its cost is to stay linear in the text.
+pub fn gen_deep_filter(rng: &mut Rng, depth: usize) -> String {
+    let mode = rng.below(3); // 0: all 'and', 1: all 'or', 2: mixed
+    let nonlocal = rng.chance(1, 3);
+    let mut open = String::new();
+    let mut close = String::new();
+    for _ in 0..depth {
+        let and = match mode {
+            0 => true,
+            1 => false,
+            _ => rng.chance(1, 2),
+        };
+        let op = if and { " and " } else { " or " };
+        let pool = if and { DEEP_TRUE } else { DEEP_FALSE };
+        fn sib(rng: &mut Rng, nonlocal: bool, pool: &[&str]) -> String {
+            if nonlocal && rng.chance(1, 6) {
+                rng.pick(DEEP_NONLOCAL).to_string()
+            } else {
+                rng.pick(pool).to_string()
+            }
+        }
+        let before = rng.below(3); // siblings in front of the parenthesis
+        let after = if before == 0 { rng.range(1, 2) } else { rng.below(2) as usize };
+        for _ in 0..before {
+            open.push_str(&sib(rng, nonlocal, pool));
+            open.push_str(op);
+        }
+        open.push('(');
+        let mut tail = String::from(")");
+        for _ in 0..after {
+            tail.push_str(op);
+            tail.push_str(&sib(rng, nonlocal, pool));
+        }
+        close.insert_str(0, &tail);
+    }
+    let inner = if rng.chance(1, 2) { *rng.pick(DEEP_TRUE) } else { *rng.pick(DEEP_FALSE) };
+    format!("{open}{inner}{close}")
+}
+
 const REF_TAGS: &[&str] = &["siteRef", "equipRef", "spaceRef", "airRef", "hotWaterRef", "a", "b"];
 
 pub fn gen_store(rng: &mut Rng) -> BTreeMap<String, Dict> {
@@ -437,8 +494,19 @@ pub fn run_case(case: &Case, ns: &'static Namespace<'static>) -> Outcome {
                 nested: Cell::new(false),
                 nested_calls: Cell::new(0),
             };
-            let subjects: Vec<Dict> = if chain_len > 0 { vec![chain_record(0, chain_len)] } else { store.values().cloned().collect() };
-            let (caught, _) = guarded(0, || -> Vec<bool> {
+            let subjects: Vec<Dict> = if case.extra.contains_key("deep") {
+                vec![deep_subject()]
+            } else if chain_len > 0 {
+                vec![chain_record(0, chain_len)]
+            } else {
+                store.values().cloned().collect()
+            };
+            // bounded liveness in term evaluations (tick site filter::Term::eval): an evaluation of
+            // the filter on one record visits each of its terms at most once, and each resolver
+            // callback may run the resolver's own two-term rule; the allowance is quadratic in the
+            // number of terms, so only a cost that compounds with nesting depth can exceed it
+            let eval_fuel = subjects.len() as u64 * (64 * terms * terms + 1024 + 4 * budget);
+            let (caught, eval_ticks) = guarded(eval_fuel, || -> Vec<bool> {
                 subjects
                     .iter()
                     .map(|d| {
@@ -454,6 +522,13 @@ pub fn run_case(case: &Case, ns: &'static Namespace<'static>) -> Outcome {
                     out.violate(format!("C09 panic {} {}", loc_class(loc), msg_class(msg)), format!("evaluation panicked at {loc}: {msg}"));
                     "panic".into()
                 }
+                Caught::Fuel { used, .. } => {
+                    out.violate(
+                        "C09 non-termination filter-eval term-evaluations".into(),
+                        format!("evaluation of {text:?} on {} record(s) made {used} term evaluations (allowance {eval_fuel}: quadratic in its <= {terms} terms) and was still going: its cost compounds with nesting depth, it does not terminate in any useful sense", subjects.len()),
+                    );
+                    "fuel".into()
+                }
                 Caught::Budget { n, .. } => {
                     out.violate(
                         "C09 non-termination filter-eval resolver-callbacks".into(),
@@ -467,7 +542,11 @@ pub fn run_case(case: &Case, ns: &'static Namespace<'static>) -> Outcome {
             out.probe("fault:store-mutation-during-eval", resolver.mutations.get());
             out.probe("fault:resolver-re-enters-the-namespace", resolver.reentries.get());
             out.probe("reach:resolver-callbacks", resolver.lookups.get());
-            out.nontrivial = resolver.lookups.get() > 0;
+            out.probe("reach:term-evaluations", eval_ticks);
+            if case.extra.contains_key("deep") {
+                out.probe("reach:deep-filter-every-term-visited", (eval_ticks >= case.extra.get("deep").and_then(|v| v.as_u64()).unwrap_or(u64::MAX)) as u64);
+            }
+            out.nontrivial = resolver.lookups.get() > 0 || case.extra.contains_key("deep");
             out.fingerprint = mix(&[fnv1a(rendered.as_bytes()), resolver.lookups.get(), resolver.mutations.get()]);
         }
         other => out.violate(format!("C09 harness unknown scenario {other}"), String::new()),
@@ -542,6 +621,14 @@ impl C09 {
         match self.ctx.tier {
             Tier::Quick => (400, 256, 8000, 256, 6000),
             Tier::Thorough => (3000, 4096, 20000, 2048, 20000),
+        }
+    }
+
+    fn deep_sizes(&self) -> (usize, usize) {
+        // (units, cases per unit) of the deep-nesting evaluation family
+        match self.ctx.tier {
+            Tier::Quick => (16, 250),
+            Tier::Thorough => (64, 2000),
         }
     }
 
@@ -670,6 +757,10 @@ impl Engine for C09 {
             units.push(UnitSpec { id, name: format!("eval:{i}"), isolated: false, exhaustive: false });
             id += 1;
         }
+        for i in 0..self.deep_sizes().0 {
+            units.push(UnitSpec { id, name: format!("evaldeep:{i}"), isolated: false, exhaustive: false });
+            id += 1;
+        }
         units.push(UnitSpec { id, name: "ladder".into(), isolated: true, exhaustive: false });
         id += 1;
         for b in gen_zinc::BOUNDARIES {
@@ -773,6 +864,23 @@ impl Engine for C09 {
         }
         let (_, _, per_search, _, per_eval) = self.sizes();
         let uname = unit.name.clone();
+        if unit.name.starts_with("evaldeep:") {
+            let unit_seed = mix(&[self.ctx.seed, fnv1a(b"C09-evaldeep"), unit.id]);
+            let per = self.deep_sizes().1;
+            return Box::new((0..per as u64).map(move |sub| {
+                let rng = Rng::new(mix(&[unit_seed, sub]));
+                let mut wl = rng.fork("workload");
+                let depth = *wl.pick(&[3usize, 8, 20, 24, 28, 32, 40, 48, 64, 96]);
+                let text = gen_deep_filter(&mut wl, depth);
+                let mut c = Case::new("C09", "filter-eval", text.as_bytes());
+                c.extra.insert("store_seed".into(), wl.next_u64().into());
+                c.extra.insert("p_mutate".into(), (*wl.pick(&[0u64, 0, 100])).into());
+                c.extra.insert("p_reenter".into(), (*wl.pick(&[0u64, 0, 300])).into());
+                c.extra.insert("deep".into(), (depth as u64).into());
+                c.origin = format!("{uname} sub={sub} depth={depth}");
+                c
+            }));
+        }
         if unit.name.starts_with("search:") {
             let unit_seed = mix(&[self.ctx.seed, fnv1a(b"C09-search"), unit.id]);
             return Box::new((0..per_search as u64).map(move |sub| {
